@@ -150,7 +150,7 @@ def make_grads(case, rng, T):
   def leaf(spec):
     n = int(np.prod(spec["shape"])) if spec["shape"] else 1
     vals = np.array([rng.normal() for _ in range(n)], dtype=np.float32)
-    return jnp.asarray(vals.reshape(spec["shape"]))
+    return jnp.asarray(vals.reshape(spec["shape"]), dtype=spec.get("dtype", "float32"))
 
   def build(spec):
     k = spec["k"]
